@@ -359,10 +359,10 @@ def scenarios(thorough):
         for n in (2, 3, 4):
             S.append(Scenario("race%d-hold-%s" % (n, u), [("g", ["create", "exit"])] + [("c%d" % i, ["clean"]) for i in range(n)],
                               prelude=[("g", 2)], priv=priv, bound=(2 if n == 2 else 1) + (1 if thorough else 0), oracle="onewinner", snapshot=True,
-                              max_execs=5000 if thorough else {2: 100, 3: 80, 4: 60}[n]))
+                              max_execs=600 if thorough else {2: 100, 3: 80, 4: 60}[n]))   # thorough sized to ~20 min for the whole tier
         # two cleaners, the winner cleans up and drops while the other is still trying
         S.append(Scenario("race2-drop-" + u, [("g", ["create", "exit"]), ("c0", ["clean", "cdrop"]), ("c1", ["clean", "cdrop"])],
-                          prelude=[("g", 2)], priv=priv, bound=2, snapshot=True, max_execs=20000 if thorough else 150))
+                          prelude=[("g", 2)], priv=priv, bound=2, snapshot=True, max_execs=1500 if thorough else 150))
         # a third party queries while a cleaner holds the resources: CleaningUp, the three files exist
         S.append(Scenario("hold-vs-monitor-" + u, [("g", ["create", "exit"]), ("c", ["clean"]), ("m", ["state"])],
                           prelude=[("g", 2), ("c", 1)], priv=priv, bound=0))
